@@ -562,6 +562,9 @@ package util
 //@   holds mpt.mutex W
 //@   mode wrap
 //@   requires ValOK(value) && HexPath(path)
+// C16: the walk starts (empty prefix) at the root as it is now, under the lock that is held: a root
+// read before the lock was taken may belong to a state other writers have replaced since.
+//@   requires len(prefix) == 0 ==> key == mpt.root                                                               #operates-on-the-current-root
 //@   assigns mpt.missingNodeKeys, heap(OriginTracker.Origin), heap(OriginTracker.Version)
 //@   ensures err == nil ==> n != nil && k != nil && len(k) == 32 && (n is *FullNode ==> KeyIsFull(k))
 //@   ensures err == nil && KeyIsFull(key) ==> n is *FullNode                                                   #a-branch-stays-a-branch
@@ -590,6 +593,7 @@ package util
 //@   mode wrap
 //@   ensures err == nil && n != nil ==> Canon(n) && PathsWF(n)                                                   #returns-canonical-node
 //@   requires HexPath(path)
+//@   requires len(prefix) == 0 ==> key == mpt.root                                                               #operates-on-the-current-root
 //@   assigns mpt.missingNodeKeys, heap(OriginTracker.Origin), heap(OriginTracker.Version)
 //@   ensures err == nil && n != nil ==> k != nil && len(k) == 32 && ((n is *FullNode) == KeyIsFull(k)) && (n is *LeafNode || n is *FullNode || n is *ExtensionNode)
 //@   ensures err == nil && n == nil ==> k == nil
